@@ -29,7 +29,15 @@ pub enum Case {
     /// a literal with two `==` keys must be an error
     Dup { init: Vec<(usize, u32)>, twin: usize, at: usize },
     /// m == permutation(m); with `change`, one value differs and the maps must be unequal
-    Permute { init: Vec<(usize, u32)>, rot: usize, swap: bool, change: bool },
+    Permute {
+        init: Vec<(usize, u32)>,
+        rot: usize,
+        swap: bool,
+        change: bool,
+        /// one entry is dropped from the second map (a proper sub-map): the maps must be unequal in both directions
+        #[serde(default)]
+        drop: bool,
+    },
 }
 
 fn class(k: usize) -> u8 {
@@ -87,7 +95,7 @@ fn cases() -> impl Strategy<Value = Case> {
     prop_oneof![
         6 => (entries(), proptest::collection::vec(op(), 1..10), any::<bool>()).prop_map(|(init, ops, module_forms)| Case::Ops { init, ops, module_forms }),
         1 => (entries(), 0..KEYS.len(), any::<usize>()).prop_map(|(init, twin, at)| Case::Dup { init, twin, at }),
-        3 => (entries(), any::<usize>(), any::<bool>(), any::<bool>()).prop_map(|(init, rot, swap, change)| Case::Permute { init, rot, swap, change }),
+        3 => (entries(), any::<usize>(), any::<bool>(), any::<bool>(), proptest::bool::weighted(0.3)).prop_map(|(init, rot, swap, change, drop)| Case::Permute { init, rot, swap, change: change && !drop, drop }),
     ]
 }
 
@@ -113,7 +121,7 @@ impl Prop for C13 {
         C13
     }
     fn rule(&self) -> String {
-        "maps of up to 8 entries whose keys come from a pool of 31 texts in 20 `==` classes (1/1.0, 1in/96px/2.54cm, a/\"a\"/'a', red/#f00/#ff0000, blue/rgb(0,0,255), .5/0.5, 100ms/0.1s, (k: v)/(\"k\": v), (1 2) vs [1 2] vs (1, 2), true, false, null, ...) and sequences of 1..9 operations get/has-key/remove/set/merge (global and module forms), checked step by step against a reference ordered-map model (keys compared by class); literals with two `==` keys (must be an error); a map against a rotation/swap of its entries (must be ==) and against the same with one value changed (must be !=). Non-trivial: a sequence that touches a key through a different spelling of its class, or a permutation other than the identity; distinct by case".into()
+        "maps of up to 8 entries whose keys come from a pool of 31 texts in 20 `==` classes (1/1.0, 1in/96px/2.54cm, a/\"a\"/'a', red/#f00/#ff0000, blue/rgb(0,0,255), .5/0.5, 100ms/0.1s, (k: v)/(\"k\": v), (1 2) vs [1 2] vs (1, 2), true, false, null, ...) and sequences of 1..9 operations get/has-key/remove/set/merge (global and module forms), checked step by step against a reference ordered-map model (keys compared by class); literals with two `==` keys (must be an error); a map against a rotation/swap of its entries (must be ==) and against the same with one value changed or one entry dropped (must be != in both directions). Non-trivial: a sequence that touches a key through a different spelling of its class, or a permutation other than the identity; distinct by case".into()
     }
     fn assumptions(&self) -> Vec<String> {
         vec!["the key classes are the Sass equality classes; that rsass's == agrees on them is C12's business, but a disagreement would surface here as a lookup mismatch".into()]
@@ -141,7 +149,7 @@ impl Prop for C13 {
                     Res::Ok(o) => Verdict::fail(format!("map literal {} has two == keys ({} and {}) but compiles to {:?}", literal(&v), key(v[pos].0), key(t), String::from_utf8_lossy(&o))),
                 }
             }
-            Case::Permute { init, rot, swap, change } => {
+            Case::Permute { init, rot, swap, change, drop } => {
                 let a = init.clone();
                 if a.len() < 2 {
                     return Verdict::pass(false);
@@ -156,6 +164,10 @@ impl Prop for C13 {
                 if *change {
                     b[0].1 += 1;
                 }
+                if *drop {
+                    b.remove(rot % b.len());
+                }
+                let change = &(*change || *drop);
                 let src = format!("{}zzq {{ p0: {} == {}; p1: {} == {}; p2: {} != {} }}\n", rs::USES, literal(&a), literal(&b), literal(&b), literal(&a), literal(&a), literal(&b));
                 let vals = match frame(&src) {
                     Ok(v) => v,
